@@ -107,7 +107,7 @@ def generate(seed, tier):
                         "api": rng.choice(["Reader", "Reader", "rows", "rows", "validate", "validate_rows"]),
                         "mode": rng.choice(["raise", "yield", "continue"]),
                         "stop_after": stop_after,
-                        "close": rng.choice(["now", "now", "never", "late"]),
+                        "close": rng.choice(["now", "now", "now", "never", "never", "late", "late", "early"]),
                         "source": rng.choice(["path", "stream"]),
                         "create": rng.choice(["late", "late", "early"]),
                         "prepass": rng.choice([None, None, None, 1, -1])})
@@ -129,7 +129,8 @@ def generate(seed, tier):
                              {"op": "write", "data": "B", "close": True, "target": "stream"}])]
     # under 'any' every stored data set may use its own line ending
     eols = {name: swarm.choice(["\n", "\r\n", "\r"]) for name in names}
-    return {"io": simfs.IoConfig.draw(swarm), "cid": spec, "datasets": datasets, "ops": ops, "eols": eols}
+    return {"io": simfs.IoConfig.draw(swarm), "cid": spec, "datasets": datasets, "ops": ops, "eols": eols,
+            "idle_reader_dropped_in": rng.randrange(len(ops)) if swarm.random() < 0.15 else None}
 
 
 # ---- bounded sweep: every history of up to 4 runs over a fixed pool of run kinds -----------------------
@@ -210,7 +211,11 @@ class _World(object):
             self.keep.append(source)
         else:
             source = path
-        return lib.ReadRun(self.cid, source, op.get("api", "Reader"), op.get("mode", "raise"))
+        run = lib.ReadRun(self.cid, source, op.get("api", "Reader"), op.get("mode", "raise"))
+        if op.get("close") == "early" and run.api == "Reader":
+            # `return reader.rows()` from inside a with-block: the Reader is closed before its rows are asked for
+            lib.call(run.reader.close)
+        return run
 
     def create_early(self, ops):
         """Readers may be constructed long before they are consumed; consumption stays sequential."""
@@ -218,6 +223,15 @@ class _World(object):
         for index, op in enumerate(ops):
             if op["op"] == "read" and op.get("create") == "early":
                 self.early[index] = self.create_read(op)
+
+    def drop_idle_reader(self):
+        """A Reader that was constructed for this Cid, never iterated and never closed goes out of scope now - while
+        another run is under way - and the garbage collector runs (it may at any moment).  Nothing may come of it."""
+        if getattr(self, "idle", None) is not None:
+            self.idle = None
+            import gc
+
+            gc.collect()
 
     def close_late_ones(self):
         """Runs of earlier ops whose owner only now gets around to closing them - while another run is under
@@ -249,9 +263,13 @@ class _World(object):
                 steps += 1
                 if steps == 1:
                     self.close_late_ones()
+                    if index == self.scenario.get("idle_reader_dropped_in"):
+                        self.drop_idle_reader()
             self.close_late_ones()
             if op.get("close", "now") == "now":
                 run.close()
+            elif op.get("close") == "early":
+                self.keep.append(run)
             elif op.get("close") == "late" and steps > 0:
                 self.late = getattr(self, "late", []) + [run]
                 self.keep.append(run)
@@ -261,7 +279,7 @@ class _World(object):
             outcome["abandoned"] = not run.finished
             if steps == 0:
                 outcome["counters"] = None  # the judged pass never started: the counters are not about it
-            if op.get("close") == "late":
+            if op.get("close") in ("late", "early"):
                 outcome["closed"] = None
             return outcome
         target = "out%d.txt" % index if op.get("target", "path") == "path" else "<stream>"
@@ -271,6 +289,8 @@ class _World(object):
                 run.write_row(row)
                 if number == 0:
                     self.close_late_ones()
+                    if index == self.scenario.get("idle_reader_dropped_in"):
+                        self.drop_idle_reader()
             self.close_late_ones()
             if op.get("close", True) is True:
                 run.close()
@@ -314,6 +334,11 @@ def execute(scenario):
     shared = _World(scenario)
     with simfs.Seams(shared.fs):
         shared.load()
+        if scenario.get("idle_reader_dropped_in") is not None:
+            from cutplace import validio
+
+            shared.idle = validio.Reader(shared.cid, sorted(scenario["datasets"])[0] + ".txt")
+            result.probe("idle-reader-garbage-collected-during-a-later-run")
         shared.create_early(ops)
         shared_outcomes = []
         states = []
@@ -394,7 +419,13 @@ def execute(scenario):
 
 
 def candidates(scenario):
+    if scenario.get("idle_reader_dropped_in") is not None:
+        yield lib.with_value(scenario, ["idle_reader_dropped_in"], None)
+        if scenario["idle_reader_dropped_in"] > 0:
+            yield lib.with_value(scenario, ["idle_reader_dropped_in"], scenario["idle_reader_dropped_in"] - 1)
     for candidate in lib.drop_candidates(scenario, ["ops"], minimum=1):
+        if candidate.get("idle_reader_dropped_in") is not None and candidate["idle_reader_dropped_in"] >= len(candidate["ops"]):
+            candidate["idle_reader_dropped_in"] = len(candidate["ops"]) - 1
         yield candidate
     if scenario["cid"].get("big"):
         # a big data set shrinks by halving, never row by row
